@@ -25,8 +25,15 @@
       clause fails. An extension of `accepted_spec_valid_all_memo` below meta fields must therefore use the OTHER rules'
       clauses (PossibleFragmentSpreads) together with a hypothesis that pins the introspection types of the schema
       description to object types (`MetaExtensionStatement`, open).
+    * THE WEAKER NOTION that does hold below meta fields (`ParentsAgreeOrNone`, `parentsAgreeOrNone_of_rules`): every
+      admissible parent type of a selection set is the one the visitor shows, or `none` - the search never derives a
+      WRONG parent type, it derives NONE (given that no type of the schema defines a field named `__schema` / `__type`
+      and `__typename` has no sub-selection); two admissible parent types differ only if one of them is `none`
+      (`parents_agree_up_to_none`). It replaces `noMetaSubsB` in the DERIVATION of the parent types; it does not by
+      itself give the rule's equivalence (see above).
 -/
 import PyGqlModel.Props.C06_inv14
+import PyGqlModel.Lemmas.ValidateOverlapParents3
 namespace PyGql.Props.C06
 open PyGql PyGql.Validate PyGql.Validate.Spec
 
@@ -114,5 +121,83 @@ def MetaExtensionStatement : Prop :=
     (∀ t ∈ s.types, t.name.startsWith "__" = true → t.kind = .object ∨ t.kind = .scalar ∨ t.kind = .enum) →
     wfIdsB d = true → NamesNonEmpty d →
     (∀ r ∈ Rule.all, SilentM s fx r d) → ∀ r ∈ Rule.all, SpecAll r s fx d
+
+/-! ### the weaker notion that holds below meta fields -/
+
+/-- every admissible parent type of a selection set is the one `TypeInfoVisitor` shows inside it, or `none` -/
+def ParentsAgreeOrNone (s : SchemaD) (d : Doc) : Prop := ∀ i p, Adm s d i p → p = none ∨ WalkP s d i p
+
+/-- computable form of `NoReservedFields` -/
+def noReservedFieldsB (s : SchemaD) : Bool :=
+  s.types.all fun t => t.fields.all fun f => f.name != "__schema" && f.name != "__type"
+
+theorem noReservedFields_of_check (s : SchemaD) (h : noReservedFieldsB s = true) : NoReservedFields s := by
+  have key : ∀ T name, (name = "__schema" ∨ name = "__type") → fieldOf s T name = none := by
+    intro T name hn
+    unfold fieldOf
+    split
+    · cases hft : s.findType T with
+      | none => rfl
+      | some t =>
+        simp only [Option.bind_some]
+        have ht : t ∈ s.types := List.mem_of_find?_eq_some hft
+        unfold noReservedFieldsB at h
+        rw [List.all_eq_true] at h
+        have h2 := h t ht
+        rw [List.all_eq_true] at h2
+        rw [List.find?_eq_none]
+        intro f hf
+        have := h2 f hf
+        rcases hn with rfl | rfl <;> simp_all
+    · rfl
+  exact fun T => ⟨key T _ (Or.inl rfl), key T _ (Or.inr rfl)⟩
+
+/-- **the weaker notion from the other rules' clauses - WITHOUT `noMetaSubsB`**: the clauses of ScalarLeafs and
+    FragmentsOnCompositeTypes, output-typed schema fields, no field with a reserved meta name in the schema, no
+    `__typename { … }`, well-formed identities -/
+theorem parentsAgreeOrNone_of_rules (s : SchemaD) (d : Doc) (hs : SchemaOutputs s) (hres : NoReservedFields s)
+    (hsl : Spec.scalarLeafs s d) (hfc : Spec.fragmentsOnCompositeTypes s d) (hnt : NoTypenameSubs d) (hw : WfIds d) :
+    ParentsAgreeOrNone s d :=
+  fun _ _ h => adm_walk_or_none hs hsl hfc hres hnt hw h
+
+/-- two admissible parent types of one selection set differ only if one of them is `none` -/
+theorem parents_agree_up_to_none {s : SchemaD} {d : Doc} (h : ParentsAgreeOrNone s d) (hw : WfIds d) :
+    ∀ i p q, Adm s d i p → Adm s d i q → p = q ∨ p = none ∨ q = none := by
+  intro i p q hp hq
+  rcases h i p hp with rfl | ⟨s1, v1, m1, e1⟩
+  · exact Or.inr (Or.inl rfl)
+  · rcases h i q hq with rfl | ⟨s2, v2, m2, e2⟩
+    · exact Or.inr (Or.inr rfl)
+    · have := typed_unique hw m1 m2 (k := i) rfl rfl
+      cases this
+      exact Or.inl (e1.symm.trans e2)
+
+/-- `ParentsAgree` is the special case "no admissible parent type is `none` unless the visitor's is" -/
+theorem adm_selSet {s : SchemaD} {d : Doc} {i : Nat} {p : Option String} (hp : Adm s d i p) : ∃ sels, SelSet d i sels := by
+  induction hp with
+  | walk hm => exact ⟨_, typed_node_mem hm⟩
+  | frag ht => exact ⟨_, fragTable_selSet ht⟩
+  | sub _ hs hc hsub _ => exact ⟨_, selSet_sub hs hc hsub⟩
+
+theorem parentsAgreeOrNone_of_parentsAgree {s : SchemaD} {d : Doc} (hpa : Spec.ParentsAgree s d) :
+    ParentsAgreeOrNone s d := by
+  intro i p hp
+  obtain ⟨sels, hs⟩ := adm_selSet hp
+  obtain ⟨v, hm⟩ := selSet_typed (s := s) hs
+  exact Or.inr ⟨sels, v, hm, hpa i _ _ (Adm.walk hm) hp⟩
+
+/-- non-vacuity: the witness document - on which `ParentsAgree` is FALSE - satisfies every hypothesis of
+    `parentsAgreeOrNone_of_rules` -/
+example : ParentsAgreeOrNone mSchema mDoc2 :=
+  parentsAgreeOrNone_of_rules mSchema mDoc2 (schemaOutputs_of_check mSchema (by decide))
+    (noReservedFields_of_check mSchema (by decide))
+    ((rule_scalar_leafs_iff mSchema Fixes.all mDoc2).mp (by unfold Silent; decide +kernel))
+    ((rule_fragments_on_composite_types_iff mSchema Fixes.all mDoc2).mp (by unfold Silent; decide +kernel))
+    (by
+      intro n hn name args dirs e
+      subst e
+      simp [nodes, mDoc2, mSub, opV, fld, defNodes, selsNodes, selNodes, argsNodes, dirsNodes] at hn
+      rw [hn.1]; decide)
+    (by rw [← wfIdsB_iff]; decide)
 
 end PyGql.Props.C06
